@@ -114,7 +114,15 @@ type c05TxSpec struct {
 	States   []ont.TransferState `json:"-"`
 	Token    int
 	Tail     string
+	Mid      string
 	Raw      []byte
+}
+
+// argument of the native system contract's evmInvoke
+type c05EvmInvokeParam struct {
+	Caller common.Address
+	Target common.Address
+	Input  []byte
 }
 
 func TestC05_FailedTxOnlyChargesFee(t *testing.T) {
@@ -251,6 +259,33 @@ func TestC05_FailedTxOnlyChargesFee(t *testing.T) {
 					t.Fatal(err)
 				}
 				if sp.Kind == "transfer+tail" {
+					// between the transfer and the failing tail the script may call into other native
+					// services that work on the same transaction cache: the system contract's evmInvoke
+					// (an EVM call frame inside a NeoVM transaction; caller must be witnessed) or a read
+					switch rapid.IntRange(0, 5).Draw(t, "mid") {
+					case 0, 1:
+						caller := users[sp.Signers[0]].Address
+						if rapid.IntRange(0, 5).Draw(t, "midcaller") == 0 {
+							caller = users[rapid.IntRange(0, 5).Draw(t, "midanycaller")].Address
+						}
+						var target common.Address
+						copy(target[:], rapid.SliceOfN(rapid.Byte(), 20, 20).Draw(t, "midtarget"))
+						mid, err := cutils.BuildNativeInvokeCode(nutils.SystemContractAddress, 0, "evmInvoke",
+							[]interface{}{&c05EvmInvokeParam{Caller: caller, Target: target, Input: rapid.SliceOfN(rapid.Byte(), 0, 8).Draw(t, "midinput")}})
+						if err != nil {
+							t.Fatal(err)
+						}
+						code = append(code, mid...)
+						sp.Mid = "evmInvoke"
+						ev.Class("gen:write-then-evmInvoke-then-tail")
+					case 2:
+						mid, err := cutils.BuildNativeInvokeCode(nutils.OngContractAddress, 0, "balanceOf", []interface{}{users[0].Address})
+						if err != nil {
+							t.Fatal(err)
+						}
+						code = append(code, mid...)
+						sp.Mid = "balanceOf"
+					}
 					sp.Tail = rapid.SampledFrom([]string{"throw", "loop", "div0", "badop", "pad2k+throw", "pad2k"}).Draw(t, "tail")
 					if burnPartial {
 						sp.Tail = "loop"
